@@ -188,7 +188,12 @@ class MeanField(Collection, Dict[Variable, AbstractMessage], Factor):
             plate_sizes = VariableData.plate_sizes(self)
             for v, new_message in mean_field.items():
                 index = v.make_indexes(plates_index, plate_sizes)
-                self[v][index] = new_message
+                if index == ():
+                    # a variable without any of the indexed plates: the whole
+                    # message is replaced (as MeanField.merge does)
+                    dict.__setitem__(self, v, new_message)
+                else:
+                    self[v][index] = new_message
         else:
             self.update(mean_field)
 
